@@ -1,6 +1,6 @@
 (* driver for the extracted C09 model.  One case per input line, one canonical result line per case.
    G <geom>          -> WF=b REG=b ; ORIG=<geom> ; <cfg>=<HEX>><reread | ERR> ; ... ; IDEAL=<one bit per cfg: reread = what the property text promises>   (24 writer configurations + 6 legacy ones)
-   R <hex text>      -> <reread | ERR | ERR:F14>                                         (model reader on arbitrary text)
+   R <hex text>      -> <reread | ERR>                                                   (model reader on arbitrary text)
    T <fl> <s> <code> <z> <m>  -> type word and its decoding
    geometry syntax (also the output syntax), [..] = repetition:
      PT|LS|LR|CS <srid> <XY|XYZ|XYM|XYZM> <n> [16-hex-digit word]          n coordinates, only the ordinates the sequence carries
@@ -103,7 +103,6 @@ let run_cfg name c g =
      (* re-writing the re-read geometry: same bytes? (the harness prints the same marker) *)
      let hx2 = hex_write c g' in
      if hx2 <> hx then (add " !REWRITE-DIFFERS:"; add_chars hx2)
-   | Err EF14 -> add "ERR:F14"
    | Err _ -> add "ERR");
   Buffer.add_string ideal_flags (b01 (match r with Ok (g', _) -> g' = ideal c g | Err _ -> false))
 
@@ -131,7 +130,6 @@ let () =
         let s = if Array.length ws > 1 then ws.(1) else "" in
         (match hex_read (chars_of_string s) with
          | Ok (g', _) -> dump_geom g'
-         | Err EF14 -> add "ERR:F14"
          | Err _ -> add "ERR")
       | "T" ->
         let fl = if ws.(1) = "E" then Ext else Iso in
